@@ -465,7 +465,7 @@ pub fn run(args: &Args) -> i32 {
     if args.has("--tiny") {
         crate::props::sched::TINY.store(true, SeqCst);
     }
-    let n = args.count(3200, 80_000);
+    let n = args.count(6_400, 120_000);
     let range: Vec<u64> = match args.case {
         Some(c) => vec![c],
         None => (0..n).collect(),
